@@ -19,6 +19,7 @@ const NTYPES: u64 = 9;
 const TYPE_NAMES: [&str; 9] = ["SectionHeader", "ProgramHeader", "Symbol", "Dyn", "VersionIndex", "u32", "u64", "Rel", "Rela"];
 
 fn setup(ctx: &mut Ctx) {
+    ctx.floor("clone-checked", 1000);
     for t in TYPE_NAMES {
         ctx.floor(&format!("tables:{t}"), 8);
     }
@@ -215,6 +216,15 @@ fn check_plain_iter<P: ParseAt + Fields, E: EndianParse>(ctx: &mut Ctx, e: E, en
 
 fn dispatch_e<E: EndianParse>(ctx: &mut Ctx, ty: u64, e: E, enc: Enc, bytes: &[u8]) {
     match ty {
+        0 => check_clone::<SectionHeader, E>(ctx, e, enc, bytes),
+        1 => check_clone::<ProgramHeader, E>(ctx, e, enc, bytes),
+        2 => check_clone::<Symbol, E>(ctx, e, enc, bytes),
+        3 => check_clone::<Dyn, E>(ctx, e, enc, bytes),
+        5 => check_clone::<u32, E>(ctx, e, enc, bytes),
+        6 => check_clone::<u64, E>(ctx, e, enc, bytes),
+        _ => {}
+    }
+    match ty {
         0 => check_table::<SectionHeader, E>(ctx, e, enc, bytes),
         1 => check_table::<ProgramHeader, E>(ctx, e, enc, bytes),
         2 => check_table::<Symbol, E>(ctx, e, enc, bytes),
@@ -244,6 +254,10 @@ fn entsize_of(ty: u64, enc: Enc) -> usize {
 
 /// Entry tables and iterators reached through ElfBytes and ElfStream: whole entries of the designated
 /// range, in order, the same on repeated and re-ordered access.
+#[cfg(not(feature = "elf_std"))]
+fn via_parsers(_ctx: &mut Ctx) {}
+
+#[cfg(feature = "elf_std")]
 fn via_parsers(ctx: &mut Ctx) {
     use crate::codec::{k, Rec, St};
     use crate::gen::elf::build;
@@ -376,3 +390,21 @@ fn run(ctx: &mut Ctx, si: usize, case: u64) {
         }
     }
 }
+
+/// an explicit `Clone::clone` of a table is the same table (for the entry types that are `Clone`)
+fn check_clone<P: ParseAt + Fields + Clone, E: EndianParse>(ctx: &mut Ctx, e: E, enc: Enc, bytes: &[u8]) {
+    let class = class_of(enc);
+    let entsize = size_of(P::ST, enc.c64);
+    let n = bytes.len() / entsize;
+    ctx.count("clone-checked");
+        let orig = ParsingTable::<E, P>::new(e, class, bytes);
+        #[allow(clippy::clone_on_copy)]
+        let c = Clone::clone(&orig);
+        let items: Vec<P> = c.iter().take(n + 4).collect();
+        check_items(ctx, "clone.iter", enc, bytes, &items, n, entsize);
+        let by_get: Vec<P> = (0..n.min(8)).filter_map(|i| c.get(i).ok()).collect();
+        check_items(ctx, "clone.get", enc, bytes, &by_get, n.min(8), entsize);
+        if c.len() != n || c.is_empty() != (n == 0) {
+            ctx.violation(&format!("{}:clone:len", P::NAME), format!("clone of a table of {n} entries reports len {} is_empty {}", c.len(), c.is_empty()));
+        }
+    }
